@@ -448,6 +448,7 @@ func foldInt(n int, f func(i int) int64) int64 { return 0 }
 func lastBytes(fn string) []byte { return nil }
 func lastStr(fn string) string { return "" }
 func lastOK(fn string) bool { return false }
+func nthBytes(fn string, k int) []byte { return nil }
 func lastTime(fn string) gvc_time.Time { return gvc_time.Time{} }
 func eachStr(pre string, list []string, suf string) string { return "" }
 func callStrs(fn string, s []string) []string { return nil }
@@ -671,7 +672,7 @@ var ghostNames = map[string]bool{
 	"gvcModLoc": true, "gvcModGhost": true, "gvcModFlag": true, "gvcModMap": true, "gvcModGlob": true, "gvcModElems": true,
 	"fsContent": true, "fsExists": true, "fsReadable": true, "fsIsDir": true, "fsMode": true, "fsSize": true, "fsMTime": true,
 	"fsLink": true, "fsIsLink": true, "ufStr": true, "ufInt": true, "ufBool": true,
-	"errIs": true, "errAsSigningFailure": true, "errMsg": true, "mapHas": true, "bit": true, "isNilFunc": true, "dynType": true, "mergoOverride": true, "deepEq": true, "forallKeys": true, "forallStr": true, "globErr": true, "readerContent": true, "callStr": true, "callStrs": true, "renderedRange": true, "inlined": true, "within": true, "foldStr": true, "foldInt": true, "lastBytes": true, "lastStr": true, "lastOK": true, "lastTime": true, "eachStr": true,
+	"errIs": true, "errAsSigningFailure": true, "errMsg": true, "mapHas": true, "bit": true, "isNilFunc": true, "dynType": true, "mergoOverride": true, "deepEq": true, "forallKeys": true, "forallStr": true, "globErr": true, "readerContent": true, "callStr": true, "callStrs": true, "renderedRange": true, "inlined": true, "within": true, "foldStr": true, "foldInt": true, "lastBytes": true, "lastStr": true, "lastOK": true, "nthBytes": true, "lastTime": true, "eachStr": true,
 }
 
 func ghostBuiltin(fn *ssa.Function) string {
@@ -910,6 +911,31 @@ func (e *Engine) ghostCall(c *CallCtx, g string, fn *ssa.Function) *Term {
 		if n.Op == "int" && n.IVal.Sign() <= 0 {
 			return unit // the empty fold
 		}
+		var foldAt func(n *Term, depth int) *Term
+		foldAt = func(n *Term, depth int) *Term {
+			if n.Op == "int" && n.IVal.Sign() <= 0 {
+				return unit
+			}
+			if n.Op == "int" && n.IVal.Int64() <= 8 {
+				// a short constant fold is written out
+				acc := unit
+				for k := int64(0); k < n.IVal.Int64(); k++ {
+					if g == "foldInt" {
+						acc = Add(acc, elem(IntT(k)))
+					} else {
+						acc = Concat(acc, elem(IntT(k)))
+					}
+				}
+				return acc
+			}
+			if n.Op == "ite" && depth < 3 {
+				return Ite(n.Args[0], foldAt(n.Args[1], depth+1), foldAt(n.Args[2], depth+1))
+			}
+			return nil
+		}
+		if r := foldAt(n, 0); r != nil {
+			return r
+		}
 		fn := F(n)
 		// n == m+1 >= 1 for an index m asked for before (the loop head): the
 		// definition is unfolded once, so that the step reads F(m) ++ f(m)
@@ -988,6 +1014,24 @@ func (e *Engine) ghostCall(c *CallCtx, g string, fn *ssa.Function) *Term {
 		if name == "zeros" && g == "ufStr" && len(as) == 1 {
 			// zeros(n): n zero bytes (as produced by make([]byte, n) and the archive models)
 			e.axiom(Implies(Ge(as[0], IntT(0)), Eq(StrLen(r), as[0])))
+		}
+		return r
+	case "nthBytes":
+		// call-history ghost: the result of the k-th (0-based) inlined call of the named function
+		name := e.constStr(c.args[0])
+		if !strings.Contains(name, "/") && !strings.Contains(name, ".") && c.fr != nil && c.fr.fn.Pkg != nil {
+			name = c.fr.fn.Pkg.Pkg.Path() + "." + name
+		}
+		if c.args[1].Op != "int" {
+			panic("nthBytes: the ordinal must be a constant")
+		}
+		r, ok := e.callHist[fmt.Sprintf("call:%s#%d", name, c.args[1].IVal.Int64())]
+		if !ok {
+			e.note("no such call of " + name + " was observed")
+			return Fresh("nocall", StringS)
+		}
+		if r.Op == "tuple" {
+			r = r.Elems[0]
 		}
 		return r
 	case "lastBytes", "lastStr", "lastTime", "lastOK":
